@@ -33,7 +33,6 @@ pub enum SocketEvent { ConnectRetried { endpoint: String, interval: Duration } }
 #[verifier::external_body]
 pub struct MonitorSender { x: u8 }
 impl MonitorSender { #[verifier::external_body] pub fn try_send(&self, e: SocketEvent) -> Result<(), u8> { unimplemented!() } }
-impl Duration { #[verifier::external_body] pub fn is_zero(&self) -> (r: bool) ensures r == (self.ns() == 0) { unimplemented!() } }
 // R8: tokio::time::sleep(delay)
 #[verifier::external_body]
 pub async fn verif_sleep(d: Duration) -> (r: ()) { unimplemented!() }
